@@ -1,4 +1,5 @@
 //@host src/io_loop/channel_slots.rs
+//@quick (generic sweep without wall-clock dependence: also runs in the quick tier, labelled bounded)
 // C10 bounded stand-in: pseudo-random open(Some)/open(None)/close sequences against a reference model, for several channel_max.
 // Bound: 4 tables x 6000 operations, ids 0..=max+2. A panic (unreachable!, overflow) fails the test as well.
 use super::ChannelSlots;
